@@ -292,16 +292,25 @@ Poly(ret, ps, pts, ends) ==
 
 (* Tier 1 for the end points of a drawn line: a cut/trimmed end lies on the *)
 (* range boundary to the precision of one code of its segment              *)
+(* |x65536 - 65536 v| <= w for ANY recorded x65536 (a line end the code left  *)
+(* at the transform's zero next to coordinates of 2^16 and more must be       *)
+(* rejected, not overflow TLC's 32-bit integers): x65536 = 65536 q + r.       *)
+EndWithin(x65536, v, w) ==
+  LET q == x65536 \div 65536
+      r == x65536 % 65536
+      k == q - v
+      m == w \div 65536 + 2
+  IN /\ k <= m /\ -k <= m
+     /\ LET d == 65536 * k + r IN d <= w /\ -d <= w
 EndNear(x65536, o, i) ==
   LET bound == IF o < lo THEN lo ELSE hi
-      d == x65536 - 65536 * bound
       w == IF i > o THEN i - o ELSE o - i
-  IN d <= w /\ -d <= w
+  IN EndWithin(x65536, bound, w)
 EndsOK(p, e) ==
   /\ (p.usr > 0 /\ p.cut # 0 /\ e[1] = 1) => EndNear(e[2], data[p.s + 1], data[p.s + 2])
   /\ (p.usr > 0 /\ p.trim # 0 /\ e[3] = 1) => EndNear(e[4], data[p.s + p.usr], data[p.s + p.usr - 1])
-  /\ (p.usr > 0 /\ p.cut = 0 /\ e[1] = 1) => e[2] = 65536 * data[p.s + 1]
-  /\ (p.usr > 0 /\ p.trim = 0 /\ e[3] = 1) => e[4] = 65536 * data[p.s + p.usr]
+  /\ (p.usr > 0 /\ p.cut = 0 /\ e[1] = 1) => EndWithin(e[2], data[p.s + 1], 0)
+  /\ (p.usr > 0 /\ p.trim = 0 /\ e[3] = 1) => EndWithin(e[4], data[p.s + p.usr], 0)
 
 (* mpt_linepart_code / mpt_linepart_real on the fraction a/b               *)
 EncodeNums(b) == IF b <= 16 THEN -1..(b + 1)
